@@ -178,6 +178,9 @@ mod verif_bounded {
                     m.save_processed_message(p.clone()).unwrap(); s.save_processed_message(p).unwrap();
                 }
             } }
+            // the same rumor cross-posted to both groups has the same id in both (the key of a message is (group, id)): g2 also holds
+            // a message with the id of g1's epoch-3 message; a rollback of g1 must leave g2's copy alone (C04 / C09)
+            { let x = msg(2, 13, 10, 10, Some(3), MessageState::Processed, "c", Tags::new()); m.save_message(x.clone()).unwrap(); s.save_message(x).unwrap(); }
             // several undecryptable events of one group wait for the same rollback (C02: every one of them is re-offered)
             for (id, g) in [(200u8, 1u8), (201, 1), (210, 2)] { let p = pm(id, Some(g), None, ProcessedMessageState::Failed); m.save_processed_message(p.clone()).unwrap(); s.save_processed_message(p).unwrap(); }
             let scen = format!("groups g1,g2 each with messages / dedup records of epochs None,1,2,3 and further Failed records without epoch (two of g1, one of g2); rollback of g1 to epoch {e}");
@@ -207,6 +210,8 @@ mod verif_bounded {
                 expect(label, &scen, &format!("state of dedup record {} (group g{g}, epoch {ep:?})", g * 40 + (i as u8) * 4 + j), "SQLite", s.find_processed_message_by_event_id(&id).unwrap().map(|x| x.state), Some(st));
                 expect(label, &scen, &format!("state of dedup record {} (group g{g}, epoch {ep:?})", g * 40 + (i as u8) * 4 + j), "memory", m.find_processed_message_by_event_id(&id).unwrap().map(|x| x.state), Some(st));
             } } }
+            expect(label, &scen, "state of g2's message that shares its id (13) with a message of g1", "SQLite", s.find_message_by_event_id(&gid(2), &eid(13)).unwrap().map(|x| x.state), Some(MessageState::Processed));
+            expect(label, &scen, "state of g2's message that shares its id (13) with a message of g1", "memory", m.find_message_by_event_id(&gid(2), &eid(13)).unwrap().map(|x| x.state), Some(MessageState::Processed));
             let fi_m: BTreeSet<EventId> = m.find_invalidated_messages(&gid(1)).unwrap().into_iter().map(|x| x.id).collect();
             let fi_s: BTreeSet<EventId> = s.find_invalidated_messages(&gid(1)).unwrap().into_iter().map(|x| x.id).collect();
             expect(label, &scen, "find_invalidated_messages(g1)", "SQLite", fi_s, want.clone());
